@@ -17,9 +17,67 @@ def gathered(res_T):
             k = (int(rk[a]), int(rk[a + 1])); d[k] = d.get(k, Fraction(0)) + nums.parse_num(rk[a + 2])
     return {k: v for k, v in d.items() if v != 0}
 
+
+def run_struct(ctx, P, drv):
+    """model tie of the distributed routines: the local blocks (on-process rows, off-process rows, column map, partition)
+    of ParCSRMatrix::transpose / add / subtract / conversion round trips against the extracted Dist/ParConv.v model"""
+    rng = ctx.rng; cases = []
+    for k in range(ctx.scale(45, 400)):
+        c = C02par.gen_parcase(rng, "s%d_%d" % (P, k), P)
+        if rng.random() < 0.35:        # a few larger ones: several off-process columns per owner, several senders per row
+            n = rng.randint(8, 16); c.update(nr=n, nc=n, fr=commgen.rand_partition(rng, P, n)); c["fc"] = list(c["fr"]) if rng.random() < 0.5 else commgen.rand_partition(rng, P, n)
+            c["trip"] = gen.rand_triples(rng, n, n, rng.choice([n, 3 * n, 5 * n]))
+        what = rng.choice(["transpose", "transpose", "add", "subtract", "conv"])
+        lit = C02par.parlit_tokens(c, True)
+        if what in ("add", "subtract"):
+            c2 = dict(c); c2["trip"] = gen.rand_triples(rng, c["nr"], c["nc"], rng.choice([0, 1, c["nr"] + c["nc"], 2 * (c["nr"] + c["nc"])]) if c["nr"] * c["nc"] else 0)
+            if rng.random() < 0.3 and c["trip"]:     # cancelling entries: columns that disappear from the merged map
+                sg = 1 if what == "subtract" else -1
+                c2["trip"] = [(i, j, sg * v) for (i, j, v) in c["trip"] if rng.random() < 0.6] + c2["trip"][:2]
+            c.update(B=c2["trip"]); toks = [what] + lit + C02par.parlit_tokens(c2, True)
+        elif what == "conv":
+            ops = [rng.choice(["to_coo", "to_csr", "to_csc", "copy"]) for _ in range(rng.choice([1, 2, 3]))]
+            c.update(ops=ops); toks = ["conv", len(ops)] + ops + lit
+        else:
+            toks = [what] + lit
+        c.update(kind=what, line=" ".join(str(x) for x in [c["cid"], "pstruct"] + toks)); cases.append(c)
+    impl, crashed = fw.run_impl_lines(ctx, "drv_parmat", [c["line"] for c in cases], nprocs=P, name="pstruct_%d" % P)
+    cf = fw.write_cases(ctx, "pstruct_model_%d.cases" % P, [c["line"] for c in cases])
+    rc, model, _, err = fw.run_model(ctx, cf, driver=drv)
+    if rc != 0: ctx.signal("K", "modeldriver", "model driver failed: " + err[-300:])
+    for c in cases:
+        ctx.evaluations += 1; ctx.count("par_P=%d" % P); ctx.count("par_struct_" + c["kind"])
+        if c["trip"]: ctx.nontrivial.add(c["line"].split(" ", 1)[1])
+        r = impl.get(c["cid"]); res = {k: v for k, v in r} if r else {}
+        sig = "par:struct:%s" % c["kind"]
+        if "DONE" not in res:
+            ctx.signal("O", sig + ":crash_or_hang", "implementation did not complete: %s" % (r[:1] if r else None,), case=c["line"]); continue
+        exp = dense_of(c["trip"])
+        if c["kind"] == "transpose": exp = {(j, i): v for (i, j), v in exp.items()}
+        elif c["kind"] in ("add", "subtract"):
+            sgn = 1 if c["kind"] == "add" else -1
+            for k, v in dense_of(c["B"]).items(): exp[k] = exp.get(k, Fraction(0)) + sgn * v
+            exp = {k: v for k, v in exp.items() if v != 0}
+        ok, why = fw.dense_equal(gathered(res["T"]), exp)
+        if not ok:
+            ctx.signal("O", sig, "gathered result differs from the required global operator: " + why, case=c["line"]); continue
+        mr = {k: v for k, v in model.get(c["cid"], [])}
+        if "S" not in mr:
+            ctx.signal("K", sig + ":model", "model produced no result: %s" % (model.get(c["cid"]),), case=c["line"]); continue
+        ctx.compared += 1
+        gi, gm = commgen.split_ranks(res["S"]), commgen.split_ranks(mr["S"])
+        for p_, (a, b) in enumerate(zip(gi, gm)):
+            if not fw.toks_equal(a, b):
+                ctx.signal("K", sig, "rank %d: local blocks differ from the model (Dist/ParConv.v): implementation %s, model %s" % (p_, " ".join(a)[:300], " ".join(b)[:300]), case=c["line"]); break
+
 def run(ctx):
     rng = ctx.rng
+    try:
+        drv = fw.model_driver(ctx, "dist", ("conv.ml", "drv_dist.ml"))
+    except Exception as e:
+        ctx.signal("T", "extraction:dist", "distributed model does not build/extract: " + str(e)[-800:]); drv = None
     for P in ctx.scale([1, 2, 3, 4], [1, 2, 3, 4, 5, 7, 8, 12]):
+        if drv: run_struct(ctx, P, drv)
         cases = []
         for k in range(ctx.scale(40, 300)):
             c = C02par.gen_parcase(rng, "v%d_%d" % (P, k), P)
